@@ -8,7 +8,7 @@ import re
 import vlib
 
 KINDS = {
-    "C04": {"not_idle", "unaccounted", "waiters_not_zero_at_idle", "stream_unattended"},
+    "C04": {"not_idle", "unaccounted", "waiters_not_zero_at_idle", "stream_unattended", "stop_never_returns"},
     "C01": {"commit_unacked", "frontier", "commit_in_foreign_stream"},
     "C02": {"commit_in_foreign_stream", "dup_commit", "order", "offset_order", "commit_of_dropped", "unaccounted", "dropped_and_committed",
             "drop_of_finished", "not_idle"},
@@ -16,12 +16,12 @@ KINDS = {
             "waiters_not_zero_at_idle", "leaked", "inuse_stuck_after_quiet_period"},
     "C08": {"batch_too_big", "batch_commit_order", "commit_before_send_return", "batch_commit_twice",
             "resend_after_done", "added_not_committed_once", "batch_bytes_exceeded", "batch_stale", "parent_sent", "deliverable_event_not_sent",
-            "not_idle", "unaccounted"},       # an added event that is never committed
+            "not_idle", "unaccounted", "stop_never_returns"},       # an added event that is never committed; Stop that waits for ever
     "C15": {"unaccounted", "not_idle", "panic"},      # a line of a run that never comes out (stream-level windows under a join-like action)
     "C19": {"deliverable_event_not_sent", "parent_sent", "payload_of_other_event", "commit_before_send_return"},   # incl. a batch that never reached the send function
     "C09": {"gave_up_without_events", "payload_of_other_event", "pause_too_short", "gave_up_early", "gave_up_unlimited", "onerror_twice", "failed_twice", "fail_without_dq",
             "commit_of_dead_queued", "exhausted_not_dq_only", "exhausted_not_main_once",
-            "commit_before_send_return", "not_idle", "unaccounted"},     # an event of an exhausted batch that nobody ever commits
+            "commit_before_send_return", "not_idle", "unaccounted", "stop_never_returns"},     # an event of an exhausted batch that nobody ever commits; a give-up that leaves a worker waiting for ever
 }
 
 
